@@ -2,7 +2,9 @@
    table keyed by getConnKey, getOrCreateConn with its wildcard fallback,
    getConn's replace-if-closed, one iteration of Serve's read loop, the
    periodic handleInactivityMonitors sweep, Server.NewConn, the discovery table
-   (multicastHandler) consulted by the cfg.Handler wrapper, the decision
+   (multicastHandler) consulted by the cfg.Handler wrapper -- registered by
+   DiscoveryRequest and removed when that call returns, also when it returns at
+   once because its datagram could not be sent (EDiscFail) --, the decision
    table of checkAcceptError of the stream/DTLS servers, and (Part 5) their
    accept level: one goroutine per accepted connection, the handshake of a
    connection being an event of its own goroutine.
